@@ -63,7 +63,7 @@ pub open spec fn word(c: char) -> bool {
 }
 pub open spec fn digit(c: char) -> bool { '0' <= c && c <= '9' }
 pub open spec fn fuses(a: char, b: char) -> bool {
-    (word(a) && word(b)) || (digit(a) && b == '.') || (a == '.' && b == '.') || (a == '.' && digit(b))
+    (word(a) && word(b)) || (digit(a) && b == '.') || (a == '.' && b == '.')
         || (a == '-' && b == '-') || (a == '[' && b == '[') || (a == '>' && b == '=')
 }
 
